@@ -7,6 +7,7 @@ import (
 	"os"
 	"os/exec"
 	"path/filepath"
+	"runtime"
 	"strings"
 	"sync"
 	"time"
@@ -281,9 +282,16 @@ func (c *Ctx) Solve(timeoutMs int, par int, crossCheck bool) {
 	// checks running side by side) is not evidence of anything; only an obligation that stays
 	// undecided with the machine to itself is reported.
 	retries := 0
+	waited := false
 	for _, o := range c.Obls {
 		if o.Status != "unknown" || o.Vacuity || o.KnownClass != "" || retries >= 6 {
 			continue
+		}
+		if !waited {
+			// "alone" only means something when the machine is not saturated by other checks:
+			// wait (at most two minutes) for the load to drop below the number of cores
+			waited = true
+			waitForLoad(120 * time.Second)
 		}
 		if strings.HasPrefix(o.Output, "solver disagreement") {
 			continue
@@ -340,4 +348,23 @@ func (c *Ctx) QuickUnsat(f Term) bool {
 	o := &Obligation{Unit: c.Unit, Name: "prune", logLen: len(c.log), goal: f}
 	r := runSolvers(c.query(o, false, true), 1500, false, solvers[:1])
 	return r.status == "unsat"
+}
+
+// waitForLoad blocks until the 1-minute load average is below the number of CPUs, or max elapsed.
+func waitForLoad(max time.Duration) {
+	deadline := time.Now().Add(max)
+	for time.Now().Before(deadline) {
+		data, err := os.ReadFile("/proc/loadavg")
+		if err != nil {
+			return
+		}
+		var l1 float64
+		if _, err := fmt.Sscan(string(data), &l1); err != nil {
+			return
+		}
+		if l1 < float64(runtime.NumCPU()) {
+			return
+		}
+		time.Sleep(5 * time.Second)
+	}
 }
